@@ -410,8 +410,10 @@ func (pr *printer) inline(e Expr, ctx int) string {
 		need = kind >= 2
 	case 3:
 		need = kind >= 1
-	case 4: // source of a pipe: a nested pipe needs no parentheses (left associative)
-		need = kind == 2 || kind == 4
+	case 4: // source of a pipe: a nested pipe needs no parentheses (left associative), and |> is
+		// the loosest operator, so a binary-operator source needs none either: half of them (chosen
+		// by the text, so every layout of one program agrees) are written bare
+		need = kind == 4 || (kind == 2 && len(s)%2 == 0)
 	}
 	if need {
 		return "(" + s + ")"
